@@ -87,7 +87,7 @@ S3      RTS
 """.splitlines()
 
 CORPUS = {"readme": README, "classes": CLASSES, "pcr": PCRS}
-PUNCT = list("#<>[],+-$%'\"/;:.@*()=!&^?")
+PUNCT = list("#<>[],+-$%'\"/;:.@*()=!&^?") + ["\t", "\x01", "\x7f"]
 
 
 def split_fields(line):
